@@ -94,6 +94,11 @@ impl<'a> Decoder<'a> {
 
         match container_header & CONTAINER_HEADER_TYPE_MASK {
             SCALAR_CONTAINER_TAG => {
+                // the scalar header carries no length, any other bits mean the input
+                // is not JSONB (e.g. JSON text starting with a digit, `-` or `"`)
+                if container_header != SCALAR_CONTAINER_TAG {
+                    return Err(Error::InvalidJsonbHeader);
+                }
                 let encoded = self.buf.read_u32::<BigEndian>()?;
                 let jentry = JEntry::decode_jentry(encoded);
                 self.decode_scalar(jentry)
